@@ -49,7 +49,11 @@ func lastCallName(c *ssa.CallCommon) string {
 	if c.IsInvoke() {
 		return c.Method.Name()
 	} else if f := c.StaticCallee(); f != nil {
-		return f.Name()
+		n := f.Name()
+		if i := strings.Index(n, "["); i > 0 {
+			n = n[:i] // instance of a generic function
+		}
+		return n
 	} else if u, ok := c.Value.(*ssa.UnOp); ok {
 		if g, ok := u.X.(*ssa.Global); ok {
 			return g.Name()
@@ -57,6 +61,10 @@ func lastCallName(c *ssa.CallCommon) string {
 		// a local variable holding a function value: the variable's name
 		if a, ok := u.X.(*ssa.Alloc); ok && a.Comment != "" {
 			return a.Comment
+		}
+		// a captured variable holding a function value
+		if fv, ok := u.X.(*ssa.FreeVar); ok {
+			return fv.Name()
 		}
 	} else if p, ok := c.Value.(*ssa.Parameter); ok {
 		return p.Name()
@@ -333,7 +341,10 @@ func (fr *Frame) havocArgs(st *State, args []*Val) {
 		}
 		if cl, ok := a.X.(*Closure); ok {
 			// the callee may run the closure: captured cells change
-			for _, b := range cl.bindings {
+			for bi, b := range cl.bindings {
+				if bi < len(cl.fn.FreeVars) && !freeVarMayBeWritten(cl.fn, cl.fn.FreeVars[bi], 0) {
+					continue // the closure only reads this captured variable
+				}
 				if p, ok := b.X.(*PtrPath); ok && p.Base == pbCell {
 					st.cells[p.Cell] = x.freshVal(p.Cell.name, p.Cell.ty)
 				}
@@ -500,6 +511,11 @@ func (fr *Frame) callWithContract(st *State, c *FuncContract, fn *ssa.Function, 
 				}
 				continue
 			}
+			if a == "*" {
+				// everything in program memory
+				heapPats = append(heapPats, "*")
+				continue
+			}
 			if strings.HasPrefix(a, "*") {
 				// *param: everything stored in the object the pointer argument refers to
 				pn := strings.TrimPrefix(a, "*")
@@ -546,7 +562,10 @@ func (fr *Frame) callWithContract(st *State, c *FuncContract, fn *ssa.Function, 
 			}
 			if cl, ok := a.X.(*Closure); ok {
 				if mode := c.Calls[pnameOf(pnames, args, a)]; mode == "" {
-					for _, b := range cl.bindings {
+					for bi, b := range cl.bindings {
+						if bi < len(cl.fn.FreeVars) && !freeVarMayBeWritten(cl.fn, cl.fn.FreeVars[bi], 0) {
+							continue // the closure only reads this captured variable
+						}
 						if p, ok := b.X.(*PtrPath); ok && p.Base == pbCell {
 							st.cells[p.Cell] = x.freshVal(p.Cell.name, p.Cell.ty)
 						}
@@ -578,6 +597,7 @@ func (fr *Frame) callWithContract(st *State, c *FuncContract, fn *ssa.Function, 
 	}
 	env.st = st
 	env.old = pre
+	env.evBase = pre.events
 	x.vc.pcNow = st.pc
 	for _, e := range c.Ensures {
 		g, err := env.assuming().evalBool(e.Expr)
